@@ -57,6 +57,13 @@ def one_case(ctx, g, rng, length):
         bsz = rng.choice([0, 1, 2, 4, n, ecap + 1])
         cls = g.CodeBlock if rng.random() < 0.5 else g.DataBlock
         blocks.append(cls(offset=off, size=bsz, byte_interval=bi))
+    # what else an interval carries stays where it is when the size shrinks below it (blocks above; symbolic expressions at offsets
+    # inside, at and beyond the size) -- and the file saved in that state loads
+    if rng.random() < 0.5:
+        ysym = g.Symbol("y", module=next(iter(ir.modules)))
+        for k in set(rng.sample([0, 1, max(0, n - 1), n, n + 1, n + 6, 40, 63], rng.choice([1, 2, 4]))):
+            bi.symbolic_expressions[k] = g.SymAddrConst(k, ysym)
+        ctx.count("interval_with_expressions")
 
     # a block that belongs to no interval: no address, no bytes, address membership always false, offset membership by its own range
     free = (g.CodeBlock if rng.random() < 0.5 else g.DataBlock)(offset=rng.choice([0, 3]), size=rng.choice([0, 2]))
@@ -125,6 +132,9 @@ def one_case(ctx, g, rng, length):
         items.append([14]); impl.append([0, bi2.size, list(bytes(bi2.contents))])
         if bi2.size != bi.size or bytes(bi2.contents) != bytes(bi.contents) or bi2.initialized_size != bi.initialized_size:
             problems.append("after save/load size/contents are %d/%r, were %d/%r" % (bi2.size, bytes(bi2.contents), bi.size, bytes(bi.contents)))
+        if sorted(bi2.symbolic_expressions) != sorted(bi.symbolic_expressions) or sorted((b.offset, b.size) for b in bi2.blocks) != sorted((b.offset, b.size) for b in bi.blocks):
+            problems.append("after save/load the interval (size %d) carries expressions at %s and blocks %s, before: %s and %s" % (
+                bi.size, sorted(bi2.symbolic_expressions), sorted((b.offset, b.size) for b in bi2.blocks), sorted(bi.symbolic_expressions), sorted((b.offset, b.size) for b in bi.blocks)))
         ctx.count("save_load")
 
     def _one_step(r, old, cur):
